@@ -76,6 +76,10 @@ type World struct {
 	// directory: in its ancestors, in $HOME and below $HOME/.config (a colleague's defaults file, another
 	// project's container): same inputs, same flags - nothing may change
 	StrayConfigs bool `json:"stray_configs,omitempty"`
+	// Persist: a fault that hits every operation of its kind during the whole run (the file is busy for good)
+	Persist *simrt.Fault `json:"persist,omitempty"`
+	// ArgStyle (non-zero): the command line is spelled differently (see Exec)
+	ArgStyle int `json:"arg_style,omitempty"`
 	// OutLocked: another process holds an advisory lock (flock) on the existing -o file for the whole run
 	OutLocked bool `json:"out_locked,omitempty"`
 	// ChainDeep: see OutKind "symlink-chain"
@@ -210,9 +214,10 @@ func observe(path string) FileObs {
 		target, _ := os.Readlink(path)
 		o := FileObs{Link: target}
 		if _, err := os.Stat(path); err == nil {
-			abs := target
-			if !filepath.IsAbs(abs) {
-				abs = filepath.Join(filepath.Dir(path), target)
+			// the file system resolves the link (a ".." after a linked directory is not lexical)
+			abs, err := filepath.EvalSymlinks(path)
+			if err != nil {
+				return o
 			}
 			t := observe(abs)
 			t.Link = target
@@ -589,7 +594,19 @@ func execPhase(t Target, w *World, top string, phase int) *Result {
 		case "symlink-self":
 			must(os.Symlink(filepath.Base(w.Out), w.Out))
 		}
-		if w.OutKind == "symlink-chain" {
+		if w.OutKind == "symlink-dotdot-via-linked-dir" {
+			// -o lives in a directory that is reached through a directory link, and is itself a relative link
+			// with "..": realdir/sub/out.go -> ../generated/out.go, and linkdir -> realdir/sub; -o is linkdir/out.go.
+			// A decoy directory ./generated exists where a lexical reading of the link would land.
+			must(os.MkdirAll("realdir/sub", 0755))
+			must(os.MkdirAll("realdir/generated", 0755))
+			must(os.MkdirAll("generated", 0755))
+			if w.PreOut != nil {
+				must(os.WriteFile("realdir/generated/out.go", []byte(w.PreOut.Content), os.FileMode(w.PreOut.Mode)))
+			}
+			must(os.Symlink("../generated/out.go", "realdir/sub/out.go"))
+			must(os.Symlink("realdir/sub", "linkdir"))
+		} else if w.OutKind == "symlink-chain" {
 			must(os.MkdirAll(filepath.Dir(w.Out), 0755))
 			must(os.MkdirAll("linkstore/deep", 0755))
 			// the hops have relative targets, each relative to the directory of its own link:
@@ -639,6 +656,16 @@ func execPhase(t Target, w *World, top string, phase int) *Result {
 		up = strings.Repeat("../", strings.Count(filepath.Clean(w.RunFrom), "/")+1)
 		beforeSet[filepath.Clean(w.RunFrom)+"/"] = true
 	}
+	outArg := w.Out
+	if !filepath.IsAbs(outArg) {
+		outArg = up + outArg
+	}
+	if w.ArgStyle != 0 {
+		// the same command spelled differently: another name of the executable, long options with '=', the
+		// output first and the other flags before the inputs
+		args = []string{[]string{"gontainer", "app.bin", "/opt/tools/bin/gontainer-v0", "./gontainer"}[w.ArgStyle%4], "build", "--output=" + outArg}
+		args = append(args, w.Flags...)
+	}
 	for _, p := range w.Patterns {
 		if inRoot != "" && !filepath.IsAbs(p) {
 			// keep the spelling of the pattern (./, //) after the root
@@ -646,14 +673,16 @@ func execPhase(t Target, w *World, top string, phase int) *Result {
 		} else if !filepath.IsAbs(p) {
 			p = up + p
 		}
-		args = append(args, "-i", p)
+		if w.ArgStyle != 0 {
+			args = append(args, "--input="+p)
+		} else {
+			args = append(args, "-i", p)
+		}
 	}
-	outArg := w.Out
-	if !filepath.IsAbs(outArg) {
-		outArg = up + outArg
+	if w.ArgStyle == 0 {
+		args = append(args, "-o", outArg)
+		args = append(args, w.Flags...)
 	}
-	args = append(args, "-o", outArg)
-	args = append(args, w.Flags...)
 	oldArgs := os.Args
 	os.Args = args
 	setEnv(baseEnv(w, home, tmp))
@@ -667,7 +696,7 @@ func execPhase(t Target, w *World, top string, phase int) *Result {
 	ctl := &simrt.Ctl{
 		MapSeed: w.MapSeed, ListSeed: w.ListSeed, Clock: time.Unix(w.Clock, 0).UTC(), RandSeed: w.RandSeed,
 		Pid: w.Pid, Host: w.Host, Faults: append([]simrt.Fault{}, w.Faults...),
-		AltSeed: w.AltSeed, AltAll: w.AltAll, SlowSeed: w.SlowSeed, LockedPaths: lockedPaths(w), Root: top, Root2: inRoot, StdoutFailFrom: w.StdoutFailFrom,
+		AltSeed: w.AltSeed, AltAll: w.AltAll, SlowSeed: w.SlowSeed, LockedPaths: lockedPaths(w), Persist: w.Persist, Root: top, Root2: inRoot, StdoutFailFrom: w.StdoutFailFrom,
 	}
 	if len(w.AltSites) > 0 {
 		ctl.AltSites = map[string]bool{}
@@ -743,7 +772,7 @@ func execPhase(t Target, w *World, top string, phase int) *Result {
 		if strings.HasSuffix(p, "/") {
 			continue // directories created on the way are not judged
 		}
-		if !beforeSet[p] && filepath.Clean(p) != filepath.Clean(w.Out) && p != "link_target.go" && p != "out/real_behind_link.go" && !strings.HasPrefix(p, "linkstore/") {
+		if !beforeSet[p] && filepath.Clean(p) != filepath.Clean(w.Out) && p != "link_target.go" && p != "out/real_behind_link.go" && !strings.HasPrefix(p, "linkstore/") && !strings.HasPrefix(p, "realdir/") {
 			res.Stray = append(res.Stray, p)
 		}
 	}
